@@ -135,6 +135,10 @@ class SchemaGen:
         if budget < 1:
             return None
         el = self.elem_type(avail, budget)
+        # multi-dimensional arrays (element = alias of an array) and arrays of messages are where the runtimes special-case
+        arrs = [d for d in avail if isinstance(d, Alias) and isinstance(d.type, Arr) and 0 < ref.nbits(d) <= budget]
+        if arrs and rng.random() < 0.15:
+            el = Ref(rng.choice(arrs))
         eb = ref.nbits(el)
         if eb == 0:
             maxcap = 8
@@ -147,6 +151,10 @@ class SchemaGen:
         else:
             cands = [c for c in BIASED_CAPS if c <= maxcap]
             cap = rng.choice(cands) if cands else 1
+            # whole arrays of exactly 8/16/32/64 bits look like one standard integer to width-keyed fast paths
+            whole = [t // eb for t in (8, 16, 32, 64) if eb and t % eb == 0 and 1 <= t // eb <= maxcap]
+            if whole and rng.random() < 0.25:
+                cap = rng.choice(whole)
         a = Arr(el, cap, ext)
         usable = [c for c in consts if isinstance(c.value, int) and not isinstance(c.value, bool) and c.value == cap]
         if usable and rng.random() < 0.8:
